@@ -354,34 +354,28 @@ impl<'a> ListStylist<'a> {
             }
             FoldStyle::Always => {
                 // TODO - this may implies `tight_delim`
-                let mut inner = arena.nil();
-                for (i, item) in self.items.into_iter().enumerate() {
-                    let is_last = i + 1 == item_count;
+                // Items and detached comments are separated by single spaces.
+                let mut docs = vec![];
+                for item in self.items.into_iter() {
                     match item {
-                        Item::Comment(cmt) => {
-                            inner += if is_last && sty.tight_delim {
-                                cmt
-                            } else {
-                                cmt + arena.space()
-                            }
-                        }
+                        Item::Comment(cmt) => docs.push(cmt),
                         Item::Commented { body, after } => {
                             seen_real_items += 1;
                             let is_last_real = seen_real_items == self.real_item_count;
-                            inner += body + after;
-                            if !is_last_real {
-                                inner += sep.clone() + arena.space();
-                            } else if sty.add_trailing_sep_always
+                            let mut doc = body + after;
+                            if !is_last_real
+                                || sty.add_trailing_sep_always
                                 || is_single && sty.add_trailing_sep_single
                             {
-                                // trailing comma for one-size array
-                                inner += sep.clone();
+                                // also the trailing comma for one-size array
+                                doc += sep.clone();
                             }
+                            docs.push(doc);
                         }
                         Item::Linebreak(_) => (),
                     }
                 }
-                inner = inner.group();
+                let mut inner = arena.intersperse(docs, arena.space()).group();
                 if is_single && sty.omit_delim_single || sty.omit_delim_flat {
                     inner
                 } else if sty.add_delim_space {
